@@ -3,7 +3,7 @@
    print_seg, print_td, print_dt, join) are defined in the proof files. *)
 From Coq Require Import List ZArith NArith Bool.
 Import ListNotations.
-From TV Require Import Lib.Obs C44.Model C44.Run C44.Src C44.Proofs1 C44.Proofs2 C44.Proofs3 C44.Proofs4 C44.Proofs5 C44.Proofs6 C44.Proofs7 C44.Proofs8 Gen.C44_src Gen.C44_equiv.
+From TV Require Import Lib.Obs C44.Model C44.Run C44.Src C44.Proofs1 C44.Proofs2 C44.Proofs3 C44.Proofs4 C44.Proofs5 C44.Proofs6 C44.Proofs7 C44.Proofs8 C44.ProofsP4a Gen.C44_src Gen.C44_equiv.
 Local Open Scope Z_scope.
 
 (* ---------------- str ---------------- *)
@@ -144,6 +144,24 @@ Print Assumptions C44_timedelta_terms_partial.
 Theorem C44_timedelta_text_denotes_sum : forall t S, td_ref t = Some S -> parse_timedelta t = Ok S.
 Proof. exact td_ref_sound. Qed.
 Print Assumptions C44_timedelta_text_denotes_sum.
+
+(* fractional numerals (phase 4, the exact-dyadic fragment): round_pos is exact on every binary64 value ... *)
+Theorem C44_round_pos_exact_on_doubles : forall n d M j,
+  0 < n -> 0 < d -> 0 < M < 2 ^ 53 -> 0 <= j <= 1074 -> n * 2 ^ j = M * d ->
+  exists e', j <= e' /\ round_pos n d = FFin (M * 2 ^ (e' - j)) (- e').
+Proof. exact round_pos_exact. Qed.
+Print Assumptions C44_round_pos_exact_on_doubles.
+
+(* ... so a numeral mant/10^k whose value is the dyadic M/2^k (5^k | mant: x.5, x.25, x.125 ..., k <= 13 fraction
+   digits, M < 2^53) denotes, as timedelta(unit = it) in the C constructor's float arithmetic, exactly
+   trunc(x)*factor + frac(x)*factor rounded half-even to microseconds (td_dyadic), e.g. 1.5h = 5400 s, 2.5us = 2 us *)
+Theorem C44_timedelta_fraction_denotes_half_even : forall neg mant k M f,
+  (k <= 13)%nat -> Z.of_N mant = M * 5 ^ Z.of_nat k -> 0 < M < 2 ^ 53 -> 0 < f < 2 ^ 40 ->
+  td_term (float_of_decimal neg mant (- Z.of_nat k)) f =
+    let v := td_dyadic (if neg then - M else M) (Z.of_nat k) f in
+    if td_in_range v then Ok v else Err EOverflowError.
+Proof. exact td_fraction_term. Qed.
+Print Assumptions C44_timedelta_fraction_denotes_half_even.
 
 Theorem C44_timedelta_rejects_non_number : forall t c r,
   lstrip is_ws_re t = c :: r -> is_digit c = false -> c <> 43%N -> c <> 45%N -> c <> 46%N ->
